@@ -62,6 +62,16 @@ def make_jobs(tier, seed, want):
     # one-cell-wide grids longer than 128 cells: coordinate arithmetic beyond the int8 range (few random executions: a corridor)
     for r, c, sc in [(1, 130, [0, 3]), (1, 130, [0, 129]), (131, 1, [127, 0])] + ([] if q else [(1, 200, [0, 100]), (140, 1, [3, 0])]):
         out.append(dict(h="gen", gen="gen_dfs", r=r, c=c, kwargs={} if sc is None else dict(start_coord=sc), max_seconds=3300))
+    # grid shape held in a narrow integer dtype (int8 is the library's own coordinate dtype) on grids whose cell count does not fit it;
+    # the decision tree of a 128-cell DFS is out of reach, so only the first draw (the start row) stays free and the rest follow one seeded continuation
+    for gen, r, c, dt in [("gen_dfs", 8, 16, "int8"), ("gen_dfs", 12, 11, "int8"), ("gen_prim", 2, 64, "int8"), ("gen_dfs_percolation", 16, 8, "int8"), ("gen_percolation", 12, 12, "int8")] + (
+            [] if q else [("gen_dfs", 16, 17, "uint8"), ("gen_dfs", 3, 43, "int8"), ("gen_wilson", 2, 64, "int8")]):
+        if "c12" in want and q:
+            continue  # the reachability oracles of C12 over 128+ cells cost minutes per execution: thorough tier only
+        kw = dict(_shape_dtype=dt)
+        if gen.endswith("percolation"):
+            kw["p"] = 0 if gen == "gen_dfs_percolation" else 1
+        out.append(dict(h="gen", gen=gen, r=r, c=c, kwargs=kw, split={"_pin_after": [1, seed]}, K=None if gen != "gen_wilson" else 100000, max_seconds=3300))
     for gen, r, c in ([("gen_percolation", 2, 4), ("gen_dfs_percolation", 2, 3)] if q else
                       [("gen_percolation", 3, 3), ("gen_percolation", 3, 4), ("gen_dfs_percolation", 3, 3)]):
         for kw in ([dict(), dict(p=0), dict(p=1)] if gen == "gen_percolation" else [dict(), dict(p=0.5, accessible_cells=3)]):
@@ -170,7 +180,7 @@ META = dict(
     bounds=dict(
         quick="every RNG draw symbolic; all shapes r x c with r*c <= 6 for dfs/prim/percolation/dfs_percolation over the kwargs grid "
               "(accessible_cells in {None,0,1,2,rc-1,rc,rc+1,0.0,0.5,1.0}, max_tree_depth in {None,0,1,2,3,0.5,1.0}, do_forks, randomized_stack, "
-              "start_coord) one-at-a-time plus seeded combinations; gen_dfs 3x3 and on corridors 1x130, 131x1 with a given start cell (beyond the int8 coordinate range); percolation 3x3 (p in {0.4,0,1}); Wilson on <=2x2 with total "
+              "start_coord) one-at-a-time plus seeded combinations; gen_dfs 3x3 and on corridors 1x130, 131x1 with a given start cell (beyond the int8 coordinate range); percolation 3x3 (p in {0.4,0,1}); grid shape given as an int8 array on 8x16, 12x11, 2x64, 16x8, 12x12 (128+ cells; first draw free, then one seeded continuation); Wilson on <=2x2 with total "
               "walk bound K=8 and 2x3/3x2 with K=7",
         thorough="as quick plus gen_dfs 3x4/4x3/4x4, gen_prim / randomized_stack on 3x3 only with accessible_cells <= 5, percolation 3x4 for p in {0, 1} only, dfs_percolation 3x3, Wilson 2x2 K=12, 2x3/3x2 K=9, 3x3 K=7 (K=9 on 3x3 did not finish within the 55-minute instance budget)",
     ),
